@@ -29,6 +29,7 @@ _LOG_PREFIXES = ("logger", "_logger", "resonaateLog", "logging", "warn", "warnin
 class _Dropper(ast.NodeTransformer):
     def __init__(self):
         self.dropped = []
+        self.first_arg = None
 
     def _is_log_call(self, call):
         f = call.func
@@ -72,7 +73,19 @@ class _Dropper(ast.NodeTransformer):
             node.annotation = None
         return node
 
+    def visit_Call(self, node):
+        self.generic_visit(node)
+        if isinstance(node.func, ast.Name) and node.func.id == "super" and not node.args and self.first_arg:
+            # zero-argument super() needs the class cell of the original class body: rewritten to an explicit proxy
+            self.dropped.append(f"super()->explicit-proxy@{node.lineno}")
+            return ast.copy_location(ast.Call(func=ast.Name(id="__pyvc_super__", ctx=ast.Load()),
+                                              args=[ast.Name(id=self.first_arg, ctx=ast.Load())], keywords=[]), node)
+        return node
+
     def visit_FunctionDef(self, node):
+        if not hasattr(self, "_top"):
+            self._top = node
+            self.first_arg = node.args.args[0].arg if node.args.args else None
         if node.decorator_list:
             self.dropped.append("decorators:" + ",".join(ast.unparse(d) for d in node.decorator_list))
             node.decorator_list = []
@@ -168,6 +181,25 @@ class exact_spec:
             sym._CTX.in_code = self.saved
 
 
+def _make_super(loader, mod, cls_qual):
+    def sup(obj):
+        real = importlib.import_module(mod)
+        for part in cls_qual.split("."):
+            real = getattr(real, part)
+
+        class _P:
+            def __getattribute__(self_, name):
+                for k in real.__mro__[1:]:
+                    if k.__module__.startswith("resonaate") and name in k.__dict__:
+                        f = loader.fn(f"{k.__module__}:{k.__qualname__}.{name}")
+                        return types.MethodType(f, obj)
+                if name == "__init__":
+                    return lambda *a, **kw: None
+                raise AttributeError(name)
+        return _P()
+    return sup
+
+
 class LazyFn:
     """A resonaate function referenced from an extracted function: extracted itself on first call."""
 
@@ -250,6 +282,9 @@ class Loader:
         m = ast.Module(body=[node], type_ignores=[])
         code = compile(m, path, "exec")
         g = self.globals_for(mod)
+        if "." in qual:  # a method: give it a super() proxy bound to its defining class
+            g = dict(g)
+            g["__pyvc_super__"] = _make_super(self, mod, qual.rsplit(".", 1)[0])
         ns = {}
         exec(code, g, ns)
         f = _code_wrapper(ns[node.name])
